@@ -22,9 +22,11 @@ try:
         env["VERIF_KEEP_EVIDENCE"] = "1"
         p = subprocess.run([sys.executable, os.path.join(ROOT, "check.py"), "run", i, "--tier", "quick", "--no-evidence"], stdout=subprocess.PIPE, stderr=subprocess.STDOUT, text=True, cwd=ROOT, env=env)
         lines = [l for l in p.stdout.splitlines() if l.startswith("VIOLATION") or l.startswith("HARNESS-ERROR")]
+        gen = [l for l in lines if l.startswith("VIOLATION") and "witness" not in l]
+        wit = [l for l in lines if l.startswith("VIOLATION") and "witness" in l]
         verdict = "CAUGHT" if p.returncode == 1 else ("missed" if p.returncode == 0 else "error")
         res[i] = verdict
-        print("%-4s %-7s %5.0fs  %s" % (i, verdict, time.time() - t0, (lines[0][:150] if lines else "")), flush=True)
+        print("%-4s %-7s %5.0fs  generated=%d witness=%d  %s" % (i, verdict, time.time() - t0, len(gen), len(wit), ((gen or lines)[0][:120] if lines else "")), flush=True)
 finally:
     subprocess.run(["git", "-C", "/repo", "checkout", "--", "."])
 print(json.dumps(res))
